@@ -245,7 +245,7 @@ def t_longline(shard, nshards, seed, ev, known, ntok=14000):
         toks = []
         for i in range(ntok):
             h = core.derive("asl", seed, k, i)
-            toks.append(nums[h % 4] if h % 3 == 0 else str(h % 100000 + 70000))
+            toks.append(nums[h % 4] if h % 2 == 0 else str(h % 100000 + 70000))
         cases.append({"nums": nums, "line": "as-path " + [" ", "_", ","][k % 3].join(toks), "salt": "long%d" % k, "via": "io"})
     return core.enum_drive(cases, check_line, ev, known, "longline")
 
@@ -255,6 +255,6 @@ def plan(tier):
     return [
         Task("lines", t_lines, shards=4 if q else 16, n=1500 if q else 40000),
         Task("grid", t_grid, shards=4 if q else 16, nsalts=1500 if q else 30000),
-        Task("longline", t_longline, shards=2 if q else 6, ntok=14000 if q else 40000),
+        Task("longline", t_longline, shards=3 if q else 6, ntok=40000 if q else 80000),
         Task("dense", t_dense, shards=2 if q else 8, nsalts=2 if q else 40),
     ]
